@@ -21,6 +21,8 @@ def _match_one(want, got):
         return want.get("min", got) <= got <= want.get("max", got)
     if isinstance(want, dict) and "any_of" in want:
         return got in want["any_of"]
+    if isinstance(want, dict) and "contains" in want:
+        return isinstance(got, (list, tuple, set, str)) and want["contains"] in got
     return want == got
 
 
